@@ -51,6 +51,9 @@ var translationUnits = []tunit{
 		{"internal/boolstr.go", "BoolStrValue"},
 		{"internal/config.go", "isRootPath"},
 		{"internal/config.go", "isCookieNameToken"},
+		{"internal/config.go", "validateURL"},
+		{"internal/config.go", "hasRootPath"},
+		{"internal/config.go", "validateOIDCConfigURLs"},
 	}},
 	{module: "CodeOidc", imports: []string{"AuthModel.Generated.CodeHttp"}, funcs: []tfunc{
 		{"internal/authz/oidc.go", "getCookieName"},
@@ -260,6 +263,14 @@ func (c *tctx) countUses(n ast.Node) {
 					if id, ok := sel.X.(*ast.Ident); ok {
 						c.assigned[id.Name] = true
 						c.fieldWritten[id.Name] = true
+					}
+					if call, ok := sel.X.(*ast.CallExpr); ok {
+						if gs, ok := call.Fun.(*ast.SelectorExpr); ok {
+							if id, ok := gs.X.(*ast.Ident); ok {
+								c.assigned[id.Name] = true
+								c.fieldWritten[id.Name] = true
+							}
+						}
 					}
 				}
 			}
@@ -573,6 +584,23 @@ func (c *tctx) expr(e ast.Expr) string {
 	return ""
 }
 
+// getterOnLocal recognises `p.GetF()` for a local pointer variable p
+func getterOnLocal(c *tctx, e ast.Expr) (pv, field string, ok bool) {
+	call, isCall := e.(*ast.CallExpr)
+	if !isCall || len(call.Args) != 0 {
+		return
+	}
+	sel, isSel := call.Fun.(*ast.SelectorExpr)
+	if !isSel || !strings.HasPrefix(sel.Sel.Name, "Get") {
+		return
+	}
+	id, isID := sel.X.(*ast.Ident)
+	if !isID || !c.isLocal(id.Name) {
+		return
+	}
+	return id.Name, strings.TrimPrefix(sel.Sel.Name, "Get"), true
+}
+
 func (c *tctx) structLit(e ast.Expr, cl *ast.CompositeLit, lt string) string {
 	if len(cl.Elts) == 0 {
 		return lt + ".new"
@@ -625,6 +653,15 @@ func (c *tctx) call(x *ast.CallExpr) string {
 		return "(env.regexpMatch " + c.args(x.Args) + ")"
 	case "url.Parse":
 		return "(env.urlParse " + c.args(x.Args) + ")"
+	case "redis.ParseURL":
+		return "(env.redisParseURL " + c.args(x.Args) + ")"
+	case "strings.Replace":
+		if len(x.Args) == 4 {
+			if lit, ok := x.Args[3].(*ast.BasicLit); ok && lit.Value == "1" {
+				return "(Go.replaceFirst " + c.args(x.Args[:3]) + ")"
+			}
+		}
+		fail(x, "strings.Replace with a count other than the literal 1")
 	case "authz.NewMockHandler":
 		return "(handlers.newMock " + c.expr(x.Args[0]) + ")"
 	case "authz.NewOIDCHandler":
@@ -908,6 +945,14 @@ func (c *tctx) stmt(o *out, ind int, s ast.Stmt) {
 		fail(s, "expression statement outside the translated subset")
 	case *ast.IfStmt:
 		if x.Init != nil {
+			// `if v := e; cond {…}`: v is a NEW variable scoped to the if statement, whatever the enclosing scope declares
+			if as, ok := x.Init.(*ast.AssignStmt); ok && as.Tok == token.DEFINE {
+				for _, l := range as.Lhs {
+					if id, ok := l.(*ast.Ident); ok {
+						delete(c.types, id.Name)
+					}
+				}
+			}
 			c.stmt(o, ind, x.Init)
 		}
 		o.line(ind, "if "+c.expr(x.Cond)+" then")
@@ -1006,6 +1051,15 @@ func (c *tctx) assign(o *out, ind int, x *ast.AssignStmt) {
 			if id, ok := sel.X.(*ast.Ident); ok && c.isLocal(id.Name) {
 				v := lname(id.Name)
 				o.line(ind, v+" := { (← Go.derefNil ("+v+").isNil "+v+") with "+lname(sel.Sel.Name)+" := "+c.expr(x.Rhs[0])+" }")
+				return
+			}
+			// p.GetF().G = v : the getter hands out the pointer held in field F of p (nil when p is nil), the write goes
+			// through it: it is a write to p.F.G, and a nil p or a nil p.F panics
+			if pv, f, ok := getterOnLocal(c, sel.X); ok {
+				v := lname(pv)
+				inner := "(" + v + ").Get" + f
+				rhs := c.expr(x.Rhs[0])
+				o.line(ind, v+" := { (← Go.derefNil ("+v+").isNil "+v+") with "+lname(f)+" := { (← Go.derefNil ("+inner+").isNil "+inner+") with "+lname(sel.Sel.Name)+" := "+rhs+" } }")
 				return
 			}
 			fail(x, "assignment to a field of something that is not a local pointer variable")
